@@ -186,12 +186,16 @@ func init() {
 		fv.s.assume(Term{fmt.Sprintf("(forall ((t Ref)) (! (= (err_is %s t) (= %s t)) :pattern ((err_is %s t))))", r.S, r.S, r.S), sBool})
 		return Value{K: kScalar, T: r, Type: fv.typeOf(x)}, true
 	}
+	libModelDocs["github.com/oasisprotocol/oasis-core/go/common/errors.WithContext"] = "fresh non-nil error wrapping its argument (errors.Is passes through)"
+	libModels["github.com/oasisprotocol/oasis-core/go/common/errors.WithContext"] = func(fv *FV, e *Env, x *ast.CallExpr, recv *Value, args []Value) (Value, bool) {
+		r := fv.allocRef(e, "err")
+		fv.errIs(r, r)
+		fv.s.assume(Term{fmt.Sprintf("(forall ((t Ref)) (! (= (err_is %s t) (or (= %s t) (err_is %s t))) :pattern ((err_is %s t))))", r.S, r.S, args[0].T.S, r.S), sBool})
+		return Value{K: kScalar, T: r, Type: fv.typeOf(x)}, true
+	}
 	libModelDocs["errors.Is"] = "err == target, or err wraps (transitively) an error that Is target; false for nil err"
 	libModels["errors.Is"] = func(fv *FV, e *Env, x *ast.CallExpr, recv *Value, args []Value) (Value, bool) {
-		fv.s.declFun("err_is", []string{sRef, sRef}, sBool)
-		fv.s.axiom("err_is_refl", "(forall ((a Ref)) (! (=> (not (= a null)) (err_is a a)) :pattern ((err_is a a))))")
-		fv.s.axiom("err_is_nil", "(forall ((t Ref)) (! (=> (not (= t null)) (not (err_is null t))) :pattern ((err_is null t))))")
-		return Value{K: kScalar, T: app(sBool, "err_is", args[0].T, args[1].T), Type: fv.typeOf(x)}, true
+		return Value{K: kScalar, T: fv.errIs(args[0].T, args[1].T), Type: fv.typeOf(x)}, true
 	}
 
 	libModelDocs["bytes.Equal"] = "content equality of two byte slices (uninterpreted over contents, reflexive, implies equal length); no effect"
